@@ -93,6 +93,12 @@ def stmt : Nat → List String → Option (SStmt × List String)
   | _, [] => none
   | f + 1, t :: r =>
     if t == "skip" then some (.skip, r)
+    else if t == "brk" then some (.brk, r)
+    else if t == "cont" then some (.cont, r)
+    else if t == "ifbrk" then do
+      let (c, r1) ← condP f r; some (.ifBrk c, r1)
+    else if t == "ifcont" then do
+      let (c, r1) ← condP f r; some (.ifCont c, r1)
     else if t == "{" then block f r
     else if t == "if" then do
       let (c, r1) ← condP f r; let (b, r2) ← stmt f r1; some (.ifThen c b, r2)
@@ -450,8 +456,8 @@ def handle (st : DState) (line : String) : DState × String :=
       | [] => ([], toks0)
     match GSParse.program toks with
     | some p =>
-      if GenStruct.SInFragment p then
-        (st, "ok " ++ " ".intercalate ((GenStruct.gen { abs := absl } p).1.map GenStruct.GLine.text))
+      if GenStruct.SInFragment p && GenStruct.Scoped false p then
+        (st, "ok " ++ " ".intercalate ((GenStruct.gen none { abs := absl } p).1.map GenStruct.GLine.text))
       else (st, "outside")
     | none => (st, "badreq")
   -- semstruct <fuel> / name=val ... / <tokens> : final values of the named variables (layout: name i at address $80+i)
@@ -472,7 +478,7 @@ def handle (st : DState) (line : String) : DState × String :=
     match GSParse.program toks, fuel.toNat? with
     | some p, some f =>
       (match GenStruct.sem L f { mem := m0, x := reg "X", y := reg "Y" } p with
-       | some σ => (st, "ok " ++ " ".intercalate ((mems.map fun p => p.1 ++ "=" ++
+       | some (_, σ) => (st, "ok " ++ " ".intercalate ((mems.map fun p => p.1 ++ "=" ++
              ",".intercalate ((List.range p.2.length).map fun i => toString (σ.mem.read (L p.1 + BitVec.ofNat 16 i)).toNat)) ++
            ["X=" ++ toString σ.x.toNat, "Y=" ++ toString σ.y.toNat]))
        | none => (st, "fuel"))
